@@ -896,7 +896,7 @@ fn round_msgs(rng: &mut Rng, round: u64) -> Vec<Msg> {
     }
 
     // ---- signed attribute sizes
-    for total in [124usize, 125, 126, 127, 128, 129, 130, 200, 254, 255, 256, 257, 258, 300, 1000, 4000] {
+    for total in [124usize, 125, 126, 127, 128, 129, 130, 200, 254, 255, 256, 257, 258, 300, 1000, 4000, 65000, 65535] {
         k += 1;
         let mut m = next(rng, ENTRIES[k % 4], "attrs-total");
         m.attrs_total = Some(total);
